@@ -34,7 +34,7 @@ def ortho_case(draw):
     if d > 1 and draw(st.booleans()):
         # widen one bond well beyond what the neighbouring cores can support
         a['ranks'][draw(st.integers(1, d - 1))] = draw(st.sampled_from([4, 5, 6]))
-    klass = draw(st.sampled_from(['generic', 'generic', 'deficient', 'zero_core', 'aliased_cores', 'nearly_orthonormal']))
+    klass = draw(st.sampled_from(['generic', 'generic', 'deficient', 'zero_core', 'aliased_cores', 'nearly_orthonormal', 'single_precision']))
     a['klass'] = klass
     a['which'] = draw(st.integers(0, d - 1))
     sweep = draw(st.sampled_from(['left', 'right', 'both']))
@@ -78,6 +78,9 @@ def make(spec):
             cores = [c.astype(np.complex64 if np.iscomplexobj(c) else np.float32).astype(c.dtype) for c in cores]
         else:
             cores = [c * (1.0 + 3e-6 * rng.uniform(-1, 1)) for c in cores]
+    elif spec['klass'] == 'single_precision' and not spec.get('int_dtype'):
+        # cores stored in single precision (float32 / complex64 arrays): "up to rounding" then means the rounding of that precision
+        cores = [np.asarray(c).astype(np.complex64 if np.iscomplexobj(c) else np.float32) for c in cores]
     elif spec['klass'] == 'aliased_cores':
         # the same ndarray object is used for every core of equal shape (e.g. a product state built as TT([c] * d))
         seen = {}
@@ -106,7 +109,7 @@ def body_ortho(case):
     spec = case['a']
     t = make(spec)
     d = t.order
-    if case.get('scale_exp', 0) and not spec.get('int_dtype'):
+    if case.get('scale_exp', 0) and not spec.get('int_dtype') and spec['klass'] != 'single_precision':       # (float32 ends at 1e-38 / 3e38)
         t.cores[0] = t.cores[0] * 10.0 ** case['scale_exp']
     before = build.snapshot(t)
     x = dense.contract(t.cores)
@@ -117,7 +120,7 @@ def body_ortho(case):
     lab = gen.spec_labels(spec)
     lab.add(spec['klass'])
     lab.add(sweep)
-    if case.get('scale_exp', 0) and not spec.get('int_dtype'):
+    if case.get('scale_exp', 0) and not spec.get('int_dtype') and spec['klass'] != 'single_precision':
         lab.add('rescaled')
 
     def run_sweep():
@@ -158,10 +161,12 @@ def body_ortho(case):
     for k in range(d + 1):
         require(t.ranks[k] <= before[3][k], 'rank_monotone', 'rank %d grew from %d to %d' % (k, before[3][k], t.ranks[k]))
     require(t.ranks[0] == 1 and t.ranks[-1] == 1, 'rank_monotone', 'boundary ranks %s' % t.ranks)
-    close(dense.contract(t.cores), x, TOL, scale, 'value_preserved', '%s sweep' % sweep)
+    single = spec['klass'] == 'single_precision' and not spec.get('int_dtype')
+    tol = 2e-5 if single else TOL            # (eps of float32 is 1.2e-7)
+    close(dense.contract(t.cores), x, tol, scale, 'value_preserved', '%s sweep' % sweep)
     for i in processed:
         g = gram_left(t.cores[i]) if side == 'left' else gram_right(t.cores[i])
-        close(g, np.eye(g.shape[0]), TOL, 1.0, 'isometry', 'core %d (%s-orthonormal)' % (i, side))
+        close(g, np.eye(g.shape[0]), tol, 1.0, 'isometry', 'core %d (%s-orthonormal)' % (i, side))
     for i in range(d):
         if i not in touched:
             same = t.cores[i].shape == before[0][i].shape and np.array_equal(t.cores[i], before[0][i])
@@ -182,10 +187,10 @@ def body_ortho(case):
             require_consistent(t, 'consistent')
             for q in range(d + 1):
                 require(t.ranks[q] <= ranks2[q], 'rank_monotone', 'second sweep: rank %d grew from %d to %d' % (q, ranks2[q], t.ranks[q]))
-            close(dense.contract(t.cores), x2, TOL, scale2, 'value_preserved', 'second %s sweep after core %d was changed in place' % (sweep, k))
+            close(dense.contract(t.cores), x2, tol, scale2, 'value_preserved', 'second %s sweep after core %d was changed in place' % (sweep, k))
             for i in processed:
                 g = gram_left(t.cores[i]) if side == 'left' else gram_right(t.cores[i])
-                close(g, np.eye(g.shape[0]), TOL, 1.0, 'isometry', 'core %d (%s-orthonormal) after the second sweep; core %d had been changed in place' % (i, side, k))
+                close(g, np.eye(g.shape[0]), tol, 1.0, 'isometry', 'core %d (%s-orthonormal) after the second sweep; core %d had been changed in place' % (i, side, k))
             lab.add('swept_again_after_in_place_change')
     return lab
 
@@ -196,5 +201,5 @@ def nt(labels):
 
 SUBCHECKS = [
     Sub('ortho', ortho_case(), body_ortho, nt, quick=800, thorough=12000, shards_quick=8,
-        classes=['left', 'right', 'both', 'partial', 'deficient', 'zero_core', 'aliased_cores', 'nearly_orthonormal', 'overparam', 'complex', 'size1mode', 'order1', 'rescaled', 'swept_again_after_in_place_change']),
+        classes=['left', 'right', 'both', 'partial', 'deficient', 'zero_core', 'aliased_cores', 'nearly_orthonormal', 'single_precision', 'overparam', 'complex', 'size1mode', 'order1', 'rescaled', 'swept_again_after_in_place_change']),
 ]
